@@ -290,8 +290,8 @@ def check(chk: Check) -> None:
     chk.exhaustive = True
     chk.trusted += ["Jelly compatibility table and limits in jstat/spec.py", "protobuf message model", "stream names are represented by one symbolic string (the analysis is independent of its content)"]
     chk.undecided += ["byte-level encoding of the options row by protobuf"]
-    header_bijection(chk)
-    version_table(chk)
-    compat_table(chk)
-    size_limits(chk)
-    strict_gates(chk)
+    chk.part("header", lambda: header_bijection(chk))
+    chk.part("version", lambda: version_table(chk))
+    chk.part("compat", lambda: compat_table(chk))
+    chk.part("sizes", lambda: size_limits(chk))
+    chk.part("strict", lambda: strict_gates(chk))
